@@ -70,12 +70,54 @@ def r2(ctx):
     ctx.floor(R, 20)
 
 
+REPLAY_SIBLINGS = (
+    ("file_len", "read_file", {"Write", "SetLen"},
+     "a file's length and its contents are decided by the same records: a pending truncation (SetLen) cuts what a later read may return"),
+    ("dir_entries", "dir_has_children", None,
+     "`what is in this directory` and `is this directory empty` must be answered from the same records"),
+)
+
+
+def _replayed_kinds(ctx, fid):
+    OP = "turmoil_fs::PendingOp"
+    vs = set()
+    for fb in ctx.w.family(fid):
+        for sbb, m, els, adt, pl in variant_edges(fb, lambda p: True):
+            if adt != OP:
+                continue
+            for v, e in m.items():
+                if e[1] != els[1]:
+                    vs.add(v)
+    return vs
+
+
+def r3(ctx):
+    R = "C10-R3"
+    ctx.rule(R, "sibling replays of the pending log consider the same kinds of record: the observers answer queries by replaying Fs::pending over "
+                "the persisted image, each with its own `match` on PendingOp; two observers of one quantity that disagree on which record kinds "
+                "matter disagree with each other (and a sync, which applies every record, then changes what is observed). Pairs: " +
+                "; ".join(f"{a} ~ {b}" for a, b, _, _ in REPLAY_SIBLINGS))
+    for a, b, need, why in REPLAY_SIBLINGS:
+        fa, fb_ = "turmoil_fs::Fs::" + a, "turmoil_fs::Fs::" + b
+        ba, bb_ = ctx.body(R, fa), ctx.body(R, fb_)
+        if not ba or not bb_:
+            continue
+        ka, kb = _replayed_kinds(ctx, fa), _replayed_kinds(ctx, fb_)
+        want = set(need) if need else (ka | kb)
+        missing = {b: sorted(want - kb), a: sorted(want - ka)}
+        ok = not missing[a] and not missing[b]
+        ctx.inst(R, f"replay-siblings:{a}~{b}", ok, bb_.span, f"both replay {sorted(want)}" if ok else
+                 f"`{a}` replays {sorted(ka)} but `{b}` replays {sorted(kb)} ({'; '.join(f'{k} ignores {v}' for k, v in missing.items() if v)}): {why}")
+    ctx.floor(R, 2)
+
+
 def run(ctx):
     if ctx.config not in ("all", "fs", "fs_iou"):
         ctx.info("C10-R1", "feature-off", "", "unstable-fs not enabled in this configuration: nothing to analyse")
         return
     r1(ctx)
     r2(ctx)
+    r3(ctx)
     C07.r3(ctx)   # R3: syncs move records, never drop or duplicate them
     C07.r1(ctx)   # R3: only sync / crash touch the persisted image
     C04.r6(ctx)   # R4: per-host isolation
